@@ -70,7 +70,7 @@ Section Counting.
     end && when_fires tr (fst img) (snd img).
 
   Lemma count_spec_row : forall tr tm img,
-    In tr trigs -> t_table tr = t -> event_eqb (t_event tr) ev = true -> t_enabled tr = true -> t_gran tr = GRow ->
+    In tr trigs -> t_table tr = t -> event_match (t_event tr) ev = true -> t_enabled tr = true -> t_gran tr = GRow ->
     count_id (t_id tr) (spec_row trigs t tm ev img)
     = if timing_eqb (t_timing tr) tm && gate tr img then 1 else 0.
   Proof.
@@ -138,7 +138,7 @@ Section Counting.
 
   (** UPDATE / DELETE: a row trigger (BEFORE or AFTER) fires exactly once for every affected row that passes its gates *)
   Theorem two_pass_exactly_once : forall ctx tr imgs,
-    In tr trigs -> t_table tr = t -> event_eqb (t_event tr) ev = true -> t_enabled tr = true -> t_gran tr = GRow ->
+    In tr trigs -> t_table tr = t -> event_match (t_event tr) ev = true -> t_enabled tr = true -> t_gran tr = GRow ->
     t_timing tr = Before \/ t_timing tr = After ->
     count_id (t_id tr) (spec_two_pass ctx trigs t ev imgs) = length (filter (gate tr) imgs).
   Proof.
@@ -165,7 +165,7 @@ Theorem insert_exactly_once : forall trigs t ctx tr rows,
   count_id (t_id tr) (spec_insert ctx trigs t rows) = length (filter (fun r => when_fires tr None (Some r)) rows).
 Proof.
   intros trigs t ctx tr rows Hnd Hin Ht He Hen Hg Htm. unfold spec_insert.
-  assert (Hev : event_eqb (t_event tr) EvInsert = true) by (rewrite He; reflexivity).
+  assert (Hev : event_match (t_event tr) EvInsert = true) by (rewrite He; reflexivity).
   rewrite !count_id_app, !(count_spec_stmt_row_trigger trigs t EvInsert Hnd) by assumption.
   rewrite count_id_flat_map.
   assert (Hrow : forall r, count_id (t_id tr) (spec_row trigs t Before EvInsert (None, Some r) ++ spec_row trigs t After EvInsert (None, Some r))
